@@ -167,6 +167,21 @@ def match_finding(findings, prop, clause, task, result):
         facts["scen"] = task.get("scen")
         # (a fact of the execution itself: did it end with threads blocked on locks?)
         facts["blocked_on_locks"] = any(b[1] == "acquire" for b in (result.get("blocked") or []))
+        # ... did a worker thread's cancel() arrive at a future that had been cancelled AT THAT VERY INSTANT by somebody
+        # else (the race window of finding D18)?  An arrival at a future that was done since an earlier instant is
+        # something else ("stale") and never matches.
+        tr = result.get("trace") or []
+        done_at = {}
+        for e in tr:
+            if e.get("ev") in ("FutState", "Observed") and e.get("s") in ("CANCELLED", "CANCELLED_AND_NOTIFIED", "FINISHED"):
+                done_at.setdefault(e.get("f"), e.get("t"))
+        arr = [e for e in tr if e.get("ev") == "CancelArrived" and e.get("a") == 1 and e.get("r") in ("timeout", "shutdown")]
+        if not arr:
+            facts["worker_cancel_on_done"] = False
+        elif all(done_at.get(e.get("f"), -1) == e.get("t") for e in arr):
+            facts["worker_cancel_on_done"] = True
+        else:
+            facts["worker_cancel_on_done"] = "stale"
         ok = True
         for k, v in sig.items():
             fv = facts.get(k)
